@@ -767,8 +767,10 @@ static void runCase(uint64_t caseSeed, size_t id, const std::string &mode, size_
 	// construction-time evaluation of every expression (const mode) — before the simulator exists
 	std::vector<std::string> ct;
 	if (b.constMode) {
-		for (auto &v : b.vals) {
+		for (size_t k = 0; k < b.vals.size(); k++) {
+			auto &v = b.vals[k];
 			std::string r;
+			o << "cteval " << k << '\n'; // marks which expression is being evaluated, should the evaluation crash
 			try {
 				sim::DefaultBitVectorState st;
 				switch (v->t) { case 'b': st = simu(*v->b).eval(); break; case 'u': st = simu(*v->u).eval(); break; case 's': st = simu(*v->s).eval(); break; default: st = simu(*v->v).eval(); }
@@ -782,6 +784,7 @@ static void runCase(uint64_t caseSeed, size_t id, const std::string &mode, size_
 			}
 			ct.push_back(r);
 		}
+		o << "cteval done\n";
 	}
 
 	try {
